@@ -20,6 +20,24 @@ certificate option set).  Called from checks/c05.py as `run(ctx, quick)`.
      code admits / allows / starts what the credential's restrictions forbid
          -> VIOLATION (the property monitor)
      any other disagreement -> model divergence.
+3. History independence (specs/Auth/RestrictSeq.tla): rows are a server
+   set-up (per-user authorized keys installed by begin_auth + site-wide
+   validate_public_key / validate_ca_key callbacks) and a sequence of 2-3
+   authentication requests on ONE connection, each with its own user name
+   and credential (publickey query / signed / bad signature, password right /
+   wrong).  TLC checks NoCarryOver, VerdictHistoryIndependent, NoLoosening,
+   ForcedCommandOfAccepted for the connection model that clears both option
+   sets per request; the model of asyncssh as coded must keep the verdict and
+   never widen anything; the wrong variant "keep" (options survive on the
+   validate_ca_key path) must be rejected.  A raw client sends each emitted
+   sequence to the real server, then turns into an ordinary client and probes
+   every operation: every reply, the admitted user and every restriction
+   must be those of the deciding request ALONE (the single-request table).
+     a request admitted that is not valid on its own, an operation allowed /
+     a command started that the admitted credential forbids -> VIOLATION
+     a restriction ADDED by an earlier request, as the coded model predicts
+         -> counted (coverage.restrict_seq_failclosed_carryover), no alarm
+     any other disagreement -> model divergence.
 """
 
 import os
